@@ -125,26 +125,29 @@ def h_tokens(c0: int, c1: int, c2: int, c3: int, c4: int) -> bool:
     """
     with NoTracing():
         ch = Chooser([c0, c1, c2, c3, c4])
-        alpha = ALPHA
-        toks = []
-        while len(toks) < MAXTOK:
-            k = ch.pick(len(alpha) + 1)
-            if k == len(alpha):
-                break
-            toks.append(alpha[k])
+        toks = pick_tokens(ch, ALPHA, MAXTOK, TAIL_FROM)
         if TWIN:
             return False
         return judge_tokens(toks) is None
 
 
-def tokens_replay(vals, alpha, maxtok):
-    ch = Chooser(list(vals), prefix=())
+TAIL_FROM = None  # thorough tier: tokens from this position on come from the core alphabet (keeps three-token sequences over the full alphabet feasible)
+
+
+def pick_tokens(ch, alpha, maxtok, tail_from=None):
     toks = []
     while len(toks) < maxtok:
-        k = ch.pick(len(alpha) + 1)
-        if k == len(alpha):
+        al = CORE if (tail_from is not None and len(toks) >= tail_from) else alpha
+        k = ch.pick(len(al) + 1)
+        if k == len(al):
             break
-        toks.append(alpha[k])
+        toks.append(al[k])
+    return toks
+
+
+def tokens_replay(vals, alpha, maxtok, tail_from=None):
+    ch = Chooser(list(vals), prefix=())
+    toks = pick_tokens(ch, alpha, maxtok, tail_from)
     return toks, judge_tokens(toks)
 
 
@@ -502,7 +505,8 @@ def run(tier):
         # (ii) token sequences
         res_all = []
         for label, al, mt in (("reduced alphabet", alpha, nfull), ("core alphabet", CORE, ncore)):
-            g = dict(ALPHA=al, MAXTOK=mt)
+            tail = 2 if (al is alpha and mt >= 3) else None
+            g = dict(ALPHA=al, MAXTOK=mt, TAIL_FROM=tail)
             tw = chrun.run(__name__, "h_tokens", [(len(al),)], timeout=60, globs=dict(g, TWIN=True), pool=pool)
             chrun.record(ck, tw, f"token sequences reachability twin ({label})", expect="refuted")
             if mt <= 2:
@@ -510,8 +514,8 @@ def run(tier):
             else:
                 shards = [(a, b) for a in range(len(al)) for b in range(len(al) + 1)] + [(len(al),)]
             r = chrun.run(__name__, "h_tokens", shards, timeout=(200 if tier == "quick" else 2400), globs=g, pool=pool)
-            chrun.record(ck, r, f"all token sequences ({label}): return or CxxParseError '<file>:<existing line>: ...' with a cause", bound=f"<= {mt} tokens over {len(al)} spellings")
-            res_all.append((al, mt, r))
+            chrun.record(ck, r, f"all token sequences ({label}): return or CxxParseError '<file>:<existing line>: ...' with a cause", bound=f"<= {mt} tokens over {len(al)} spellings" + (f" (the third token from the {len(CORE)}-spelling core)" if tail else ""))
+            res_all.append((al, mt, r, tail))
         # (iii)
         tw = chrun.run(__name__, "h_breakers", [(0, 1, 0)], timeout=60, globs=dict(TWIN=True), pool=pool)
         chrun.record(ck, tw, "rule breakers reachability twin", expect="refuted")
@@ -524,9 +528,9 @@ def run(tier):
     finally:
         pool.shutdown()
     seen = set()
-    for al, mt, r in res_all:
+    for al, mt, r, tail in res_all:
         for shard, args, kw, msg in r.counterexamples:
-            toks, bad = tokens_replay(list(shard) + list(args), al, mt)
+            toks, bad = tokens_replay(list(shard) + list(args), al, mt, tail)
             ck.traces += 1
             if bad is None:
                 raise HarnessError(f"token-sequence counterexample did not reproduce: {msg} {toks}")
@@ -534,7 +538,7 @@ def run(tier):
             if sig in seen or len(seen) > 10:
                 continue
             seen.add(sig)
-            body = ("from vf.props import c06\n" f"toks, bad = c06.tokens_replay({list(shard) + list(args)!r}, {al!r}, {mt})\nprint(toks); print(bad)\nsys.exit(1 if bad else 0)\n")
+            body = ("from vf.props import c06\n" f"toks, bad = c06.tokens_replay({list(shard) + list(args)!r}, {al!r}, {mt}, {tail!r})\nprint(toks); print(bad)\nsys.exit(1 if bad else 0)\n")
             ck.violation(f"tokens {toks}: {bad}", ck.write_replay(body), key=dict(kind="tokens", what=sig))
     seen = set()
     for shard, args, kw, msg in rb.counterexamples:
